@@ -103,5 +103,15 @@ def chain_cancel(f_outer, f_inner):
     )
 
 
+def notify_cancel(f):
+    # Make sure that callers blocked in concurrent.futures.wait() or
+    # as_completed() are released if f, a plain Future owned by no executor,
+    # is cancelled: those waiters are only told about a cancellation by
+    # set_running_or_notify_cancel(), normally called by an executor's worker.
+    f.add_done_callback(
+        lambda f: f.set_running_or_notify_cancel() if f.cancelled() else None
+    )
+
+
 def wrap(f):
     return EXECUTOR.flat_bind(lambda: f)
